@@ -45,7 +45,7 @@ CHECKS["C08"] = ("Proof: C08.read_blocks(_padded) — on every tape emitted by t
                  "is extracted as exactly those files (names, order, content = concatenation of the data blocks) and listed under the same names; "
                  "list_extract_agree — whenever extract completes, list completes with the same report. Tie: tapes from a Python twin of "
                  "the writer (checked byte-identical to Lean's render) through real list/extract vs model and abstract files.", T, "7 C08")
-CHECKS["C09"] = ("Proof: C09.accepted / refused / accepted_iff / missing_source / never_partial — the model accepts exactly the lists whose "
+CHECKS["C09"] = ("Proof: C09.all_or_nothing — for every world and every source list, status 0 with exactly one write of 21504 bytes, or another status and no write (no hypothesis); C09.accepted / refused / accepted_iff / missing_source / never_partial — the model accepts exactly the lists whose "
                  "encoded size (35 per leader, 21 per block + payload) is < 21504, then writes the complete archive with status 0; "
                  "otherwise status 1, diagnostic, no write at all. Tie: frontier stream with the overflow in every block kind, "
                  "single-file lengths across the frontier, missing sources at every index, pre-existing target.", T, "7 C09")
